@@ -227,6 +227,12 @@ EXPORT int swprintf_s(wchar_t *restrict dest, rsize_t dmax,
         strcat(errstr, strerror(errno));
         handle_werror(dest, dmax, errstr, -ret);
     }
+#ifdef SAFECLIB_STR_NULL_SLACK
+    else {
+        /* null the slack behind the terminator, as documented */
+        memset(&dest[ret], 0, (dmax - ret) * sizeof(wchar_t));
+    }
+#endif
 
     return ret;
 }
